@@ -21,21 +21,26 @@ TIE = ('translator+correspondence: 38 definitions regenerated from /repo (transl
        'helpers of Model/C03.v (Bridge/C03.v, theorem C03_source_tie); Model.C03.run_hist evaluated in Coq on the same history, '
        'reference reader on the written bytes')
 ASSUMPTIONS = [
-    'A-FLOAT: float cells are printed by Python str(float) (opaque printer): the generator supplies that text and the exact '
-    'value; spec_ok compares the value read back with the exact value to 1e-12 relative',
+    'A-FLOAT: float cells are printed by Python str(float) (opaque printer). Theorems C03_parse_serialise_floats / C03_roundtrip_delim '
+    'cover float tables for ANY printer/reader pair with the stated round-trip hypothesis (reader inverts printer, no TAB/LF in the '
+    'text); that str(float)/str_to_float satisfy it to printing precision is checked per case: the generator supplies the text and '
+    'the exact value, spec_ok compares the value read back with the exact value to 1e-12 relative',
     'A-GZIP: gzip is transparent (the decompressed concatenation of members is compared)',
-    'A-LOG10: the float64 log10 rounding that ints_to_strings relies on is modelled by calibrated thresholds '
-    '(10^d - m <= 2, 21, 407, 4031 for d = 15..18), validated on every run by cases on both sides of each threshold',
+    'A-READER: the reader is the reference reader Model.C03.parse_file (tied to bnp.open(path).read() by model_ok on every case); '
+    'the library reader itself is properties C01/C02',
     'lazy VCF sources: an unmodified lazily read table (variant lazy, Model fmt VcfL) is passed through as the canonical text '
     'it was read from (model = spec for that call; the lazy extraction itself is property C04); with a replaced POS '
-    'column (variant lazypos) the model is the eager serialiser (all other VCF columns are text)']
-PARTIAL = ['C03_int_text_partial: |n| < 10^15 - 2 (float log10 width; -2^63 wraps) — full for the repaired printer (C03_int_text_fixed)',
-           'C03_fasta_partial: every sequence non-empty — full for the repaired from_data (C03_fasta_fixed)',
-           'C03_from_data_canonical_partial: tables in table_ok (rectangular, int cells small, FASTA sequences non-empty, not VCFEntry with Union INFO)',
-           'C03_write_pieces_partial: not (gzip target with a header that is appended to); first session hands over a table outside an '
-           'all-empty stream — full for the repaired writer (C03_write_pieces_fixed_writer)',
-           'C03_parse_serialise_delim / _fastq: reference reader; text/int/int-list columns without TAB/LF in cells; FASTA, VCF header '
-           'skipping, SAM tag column and float columns are covered by the correspondence only']
+    'column (variant lazypos) the model is from_data_lazy_pos = the eager serialiser (C03_vcf_pos_paths_agree)',
+    'SAM without optional tags: the Spec takes the eager writer\'s 12-column line (trailing TAB) as canonical; the SAM-standard '
+    'spelling without it (lazy path since /repo 36989fd) reads back as the same row (C03_sam_empty_tags_spellings)']
+PARTIAL = ['C03_int_text_partial / C03_fasta_partial / C03_write_pieces_partial are about the code BEFORE the repairs (history); the '
+           'code at /repo HEAD is covered without those guards by C03_int_text_fixed + C03_cell_text_current, C03_fasta_fixed, '
+           'C03_write_pieces_head',
+           'C03_from_data_canonical_partial: tables in table_ok (rectangular, FASTA: [name; sequence] rows, FASTQ: [name; seq; qual] rows; '
+           'not VCFEntry with Union INFO: that variant is correspondence-only)',
+           'read-back (C03_parse_serialise_*, C03_roundtrip_*): text cells without TAB/LF (FASTA: sequence without ">" and LF, name '
+           'without LF; VCF: first cell not starting with "#"); identifier columns not empty in every row (known finding)',
+           'C03_model_ok_spec_ok*: float-free tables (spec_ok itself compares floats to 1e-12; no theorem about str_to_float)']
 PER_FILE = 40
 
 # column kinds: D identifier (SequenceID), S text, I int, L int list, F float, Q qualities, R rest of line
@@ -433,33 +438,54 @@ def observe(case):
         if err == 0:
             try:
                 r = bnp.open(path, buffer_type=rbt).read()
-                cols = []
-                for fld, k in zip(dataclasses.fields(cls), kinds):
-                    v = getattr(r, fld.name)
-                    if k in 'DSR':
-                        col = [x.encode('latin1').hex() for x in _texts(v)]
-                    elif k == 'I':
-                        col = [int(x) for x in np.asarray(v).tolist()]
-                    elif k in 'LQ':
-                        col = [[int(y) for y in x] for x in v.tolist()]
-                    elif k == 'F':
-                        col = []
-                        for x in np.asarray(v, dtype=float).tolist():
-                            if x != x or x in (float('inf'), float('-inf')):
-                                col.append([0, 0])
-                            else:
-                                col.append(list(float(x).as_integer_ratio()))
-                    cols.append(col)
-                n = len(cols[0]) if cols else 0
-                assert all(len(c) == n for c in cols), [len(c) for c in cols]
-                out['read'] = [[c[i] for c in cols] for i in range(n)]
+                out['read'] = _table_rows(r, cls, kinds)
                 out['read_ok'] = True
             except Exception as e:
                 import traceback
                 out['read_err'] = '%s: %s | %s' % (type(e).__name__, str(e)[:160], traceback.format_exc(limit=-2)[-300:])
+        # the SAM-standard spelling of the same table (no TAB before absent optional tags): must read back equal
+        if fmt == 'sam' and err == 0 and rows and any(r[-1] == '' for r in rows):
+            alt = b''.join(('\t'.join(_cell_text(k, v, False) for k, v in zip(kinds[:-1], r[:-1]))
+                            + ('\t' + r[-1] if r[-1] else '') + '\n').encode('latin1') for r in rows)
+            apath = os.path.join(d, 'alt.sam')
+            open(apath, 'wb').write(alt)
+            out['alt'] = alt.hex()
+            out['alt_read_ok'] = False
+            out['alt_read'] = []
+            try:
+                out['alt_read'] = _table_rows(bnp.open(apath).read(), cls, kinds)
+                out['alt_read_ok'] = True
+            except Exception as e:
+                out['alt_err'] = '%s: %s' % (type(e).__name__, str(e)[:160])
         return out
     finally:
         shutil.rmtree(d, ignore_errors=True)
+
+
+def _table_rows(r, cls, kinds):
+    """a table read by bionumpy as canonical JSON rows"""
+    import dataclasses
+    import numpy as np
+    cols = []
+    for fld, k in zip(dataclasses.fields(cls), kinds):
+        v = getattr(r, fld.name)
+        if k in 'DSR':
+            col = [x.encode('latin1').hex() for x in _texts(v)]
+        elif k == 'I':
+            col = [int(x) for x in np.asarray(v).tolist()]
+        elif k in 'LQ':
+            col = [[int(y) for y in x] for x in v.tolist()]
+        elif k == 'F':
+            col = []
+            for x in np.asarray(v, dtype=float).tolist():
+                if x != x or x in (float('inf'), float('-inf')):
+                    col.append([0, 0])
+                else:
+                    col.append(list(float(x).as_integer_ratio()))
+        cols.append(col)
+    n = len(cols[0]) if cols else 0
+    assert all(len(c) == n for c in cols), [len(c) for c in cols]
+    return [[c[i] for c in cols] for i in range(n)]
 
 
 def _texts(v):
@@ -527,9 +553,11 @@ def to_coq(case, o):
         sess.append('{| s_append := %s; s_calls := %s |}' % (cbool(s['append']), clist(calls, 'call')))
     read = clist([_row(kinds, r, True) for r in o['read']], 'row') if o['read_ok'] else '(@nil row)'
     return ('{| k_fmt := %s; k_schema := %s; k_header := %s; k_gz := %s; k_hist := %s; k_err := %s; k_written := %s; '
-            'k_read_ok := %s; k_read := %s |}' % (
+            'k_read_ok := %s; k_read := %s; k_alt_file := %s; k_alt_read_ok := %s; k_alt_read := %s |}' % (
                 _fmt_term(case), zl([KCODE[k] for k in kinds]), hx(_header(case)), cbool(case['gz']), clist(sess, 'session'),
-                cz(o['err']), hx(bytes.fromhex(o['written'])), cbool(o['read_ok']), read))
+                cz(o['err']), hx(bytes.fromhex(o['written'])), cbool(o['read_ok']), read,
+                hx(bytes.fromhex(o.get('alt', ''))), cbool(o.get('alt_read_ok', False)),
+                clist([_row(kinds, r, True) for r in o.get('alt_read', [])], 'row') if o.get('alt_read_ok') else '(@nil row)'))
 
 
 # ----------------------------------------------------------------------------- evidence helpers
@@ -586,7 +614,7 @@ def explain(case, o):
 
 def distribution(cases, obs):
     d = dict(fmt={}, variant={}, rows={}, pieces={}, gz=0, append_sessions=0, stream_calls=0, empty_pieces=0, edge_ints=0,
-             errors={}, read_failures=0, fasta_widths={}, alphabets={})
+             errors={}, read_failures=0, fasta_widths={}, alphabets={}, sam_standard_spelling_reads=0)
     for c, o in zip(cases, obs):
         def inc(m, k):
             m[str(k)] = m.get(str(k), 0) + 1
@@ -608,6 +636,8 @@ def distribution(cases, obs):
             inc(d['errors'], o['errtype'].split(':')[0])
         if isinstance(o, dict) and not o.get('err') and not o.get('read_ok'):
             d['read_failures'] += 1
+        if isinstance(o, dict) and 'alt' in o:
+            d['sam_standard_spelling_reads'] += 1
     return d
 
 
@@ -730,20 +760,11 @@ def _ref_run(case, T):
     return err, content.encode('latin1'), read_ok, exp_rows
 
 
-def _explained(case, o, T):
-    err, content, read_ok, exp_rows = _ref_run(case, T)
-    if err != o['err'] or content.hex() != o['written']:
-        return False
-    if err:
-        return True
-    if read_ok != o['read_ok']:
-        return False
-    if not read_ok:
-        return True
+def _rows_match(case, exp_rows, got):
     kinds = KINDS[case['fmt']]
-    if len(exp_rows) != len(o['read']):
+    if len(exp_rows) != len(got):
         return False
-    for e, g in zip(exp_rows, o['read']):
+    for e, g in zip(exp_rows, got):
         for k, a, b in zip(kinds, e, g):
             if k in 'DSR':
                 if a.encode('latin1').hex() != b:
@@ -760,6 +781,24 @@ def _explained(case, o, T):
     return True
 
 
+def _explained(case, o, T):
+    err, content, read_ok, exp_rows = _ref_run(case, T)
+    if err != o['err'] or content.hex() != o['written']:
+        return False
+    if err:
+        return True
+    if read_ok != o['read_ok']:
+        return False
+    if read_ok and not _rows_match(case, exp_rows, o['read']):
+        return False
+    if 'alt' in o:          # the alternative spelling must be read exactly like the canonical one
+        if o.get('alt_read_ok') != read_ok:
+            return False
+        if read_ok and not _rows_match(case, exp_rows, o['alt_read']):
+            return False
+    return True
+
+
 def _explaining_set(case, o):
     for n in range(0, len(F_ORDER) + 1):
         for T in itertools.combinations(F_ORDER, n):
@@ -768,9 +807,15 @@ def _explaining_set(case, o):
     return None
 
 
+# defects that the model at /repo HEAD still has (its switch is on the as-is side).  A violating case is attributed to
+# a finding only if it is explained by ACTIVE defects alone: the mirror then behaves exactly like the Coq model, so a
+# case on which the implementation disagrees with the model can never be swallowed by a finding.
+ACTIVE = {F_EMPTYID}
+
+
 def finding(case, o):
     T = _explaining_set(case, o)
-    if T:
+    if T and set(T) <= ACTIVE:
         return T[0]
     return None
 
